@@ -89,7 +89,7 @@ static void op_crc(int nt, char **t) {
     LIB(f = libwifi_calculate_fcs(b, n));
     unsigned char fb[4]; memcpy(fb, &f, 4);
     printf("crc %u ", c); out_hex(fb, 4);
-    __real_free(b);
+    hfree(b);
 }
 
 /* verify <hex>: libwifi_frame_verify on an exactly sized block; the input must not be modified */
@@ -100,7 +100,7 @@ static void op_verify(int nt, char **t) {
     int r;
     LIB(r = libwifi_frame_verify(b, n));
     printf("verify %d%s", r, memcmp(copy, b, n) ? " MODIFIED" : "");
-    __real_free(b); __real_free(copy);
+    hfree(b); hfree(copy);
 }
 
 /* cap <shape> <name index> <a> <b> <c>: the capability macro as the real preprocessor and compiler see it */
@@ -140,7 +140,7 @@ static void op_randmac(int nt, char **t) {
     rnd_pattern = 0xC0;
     LIB(libwifi_random_mac(buf, usep ? p : NULL));
     printf("randmac "); out_hex(buf, 6);
-    __real_free(buf); __real_free(p);
+    hfree(buf); hfree(p);
 }
 
 const struct op ops_misc[] = {
